@@ -78,3 +78,47 @@ func transparency(c *vh.Ctx) {
 		}
 	})
 }
+
+// slicedWithLag: sliced ObjectSets whose controller reads through a manager cache that does not yet show objects created
+// a few requests ago (a freshly created ObjectSlice next to its ObjectSet); the C03-C06 monitors judge every pass on the
+// phases as the stored slices define them, also when the pass itself could not read a slice.
+func slicedWithLag(c *vh.Ctx) {
+	n := c.N(60, 1000)
+	vh.Parallel(n, func(i int) {
+		if c.Skip("c14-sliced-lag", i) {
+			return
+		}
+		r := c.Rand("c14-sliced-lag", i)
+		prof := scen.Profile{
+			Steps: 50 + r.Intn(50), Cluster: r.Intn(4) == 0, MaxRevisions: 1 + r.Intn(3), Sliced: true, SliceSeed: int64(i),
+			Weights: scen.WeightsWith(map[string]int{"reconcile": 45, "workload": 15, "adv-delete": 2, "adv-edit": 2, "user-archive": 3, "user-delete": 2, "user-pause": 1, "user-unpause": 2,
+				"user-next-revision": 6, "gc": 3, "adv-create": 0, "adv-reown": 0, "adv-relabel": 0, "adv-recreate": 0, "restart": 1}),
+			CPs: []string{"", "None", "IfNoController"}, FinalQuiesce: 10,
+		}
+		// the ObjectSlice informer lags: a slice stays invisible for a number of requests after its creation
+		hide := int64(20 + r.Intn(200))
+		e, err := scen.NewEnv(r, driver.Options{CachedHideYoungKind: func(kind string) int64 {
+			if strings.HasSuffix(kind, "ObjectSlice") {
+				return hide
+			}
+			return -1
+		}}, &monitors.C03{}, &monitors.C04{}, &monitors.C05{}, &monitors.C06{})
+		if err != nil {
+			panic(err)
+		}
+		g := scen.NewRandom(e, prof)
+		g.Run()
+		c.Eval()
+		c.Count("sliced_lag_runs", 1)
+		for _, req := range e.W.Store.Trace() {
+			if req.Pass != nil && req.Verb == "get" && strings.HasSuffix(req.GVK.Kind, "ObjectSlice") && req.Err != nil {
+				c.Count("sliced_lag_slice_reads_not_found", 1)
+			}
+		}
+		for _, v := range e.Viol {
+			c.Violation(v.Sig+":sliced-objectset:stale-cache", v.Msg, map[string]any{"index": i, "stream": "c14-sliced-lag", "steps": e.Log, "trace": e.TraceTail(400)})
+		}
+		c.Distinct(strings.Join(e.Log, "\n"))
+	})
+	c.GateCount("sliced_lag_slice_reads_not_found", 20)
+}
